@@ -1,4 +1,12 @@
 import CattrsModel.Heap.TaggedLemmas
+import CattrsModel.Heap.RefSt8
+import CattrsModel.Heap.RefUn13
+import CattrsModel.Heap.FreshFull
+import CattrsModel.Heap.FreshRegion
+import CattrsModel.Heap.FreshExamples
+import CattrsModel.Heap.Documented3
+import CattrsModel.Heap.TaggedCEquiv
+import CattrsModel.Heap.TaggedCFrame
 /-!
 # C11 — un/structuring never mutates its argument nor aliases its mutable containers
 
@@ -185,5 +193,172 @@ example :
 example :
     (run c11_w0 { cfg := { gen := true, tupleStrat := false, detailed := true, forbid := false } } 4
         (.un (.coll .list (.coll .list .int))) (.ref 1) c11_stNest).2.log = [] := by decide
+
+
+/-! ## Refinement of the heap programs to the pure data-path model (the model C01–C06 are proved about)
+
+Setting: the argument `v` reads as the pure object `o` within `k` reference hops of the caller's store
+(`denote st.cells k v = some o`); the store is well formed (`wfStore`) and *proper* (`properStore`: a `.leaf` slot
+holds a leaf object, never a container — what `inject` builds); `dW w` = 1 + depth of the deepest default value of the
+class table (an all-defaults instance is that much deeper than the payload it was built from).  The configuration
+has no TypedDict overrides (`hc.ovr = []`: the pure model has none).  `WLit` / `litLeaf`: `Literal[...]` members are
+leaf objects (as `typing.Literal` demands). -/
+
+/-- **The heap program of `structure` computes what the pure model computes — every type (unions and NamedTuples
+included), every configuration (Converter / BaseConverter, both strategies, BOTH validation modes, forbid_extra_keys),
+every store, every argument, every sufficient fuel**: with fuel `n ≥ k + dW w + 1` the call returns iff
+`convStructure` (= `stF`, = `stD` up to the error tree, `C04_templates_agree`) accepts, and the returned value reads,
+in the final store, as the pure result. -/
+theorem C11_refines_pure_structure (w : World) (hc : HCfg) (hovr : hc.ovr = []) (hw : WLit w)
+    (t : Ty) (hl : litLeaf t = true) (v : HVal) (st : St)
+    (hwf : wfStore st = true) (hps : properStore st = true) (hv : inB st.cells.length v = true) (hpv : Proper v)
+    (k : Nat) (o : Obj) (hden : denote st.cells k v = some o) (n : Nat) (hn : k + dW w + 1 ≤ n) :
+    (∀ r, (run w hc n (.st t) v st).1 = some r →
+      ∃ y, convStructure w hc.cfg t o = some y ∧ denote (run w hc n (.st t) v st).2.cells (k + dW w) r = some y) ∧
+    ((run w hc n (.st t) v st).1 = none → convStructure w hc.cfg t o = none) := by
+  obtain ⟨K, rfl⟩ : ∃ K, n = K + dW w + 1 := ⟨n - dW w - 1, by omega⟩
+  have h := run_ref_st w hc hovr hw st.cells.length K (.st t) v st k o (Good.of_wf hwf hps) (inB_argOld hv) hpv hden
+    (by omega) hl
+  rw [conv_eq]
+  exact ⟨h.1, fun hr => h.2 hr trivial⟩
+
+/-- the same ok/err in one line -/
+theorem C11_refines_pure_structure_okerr (w : World) (hc : HCfg) (hovr : hc.ovr = []) (hw : WLit w)
+    (t : Ty) (hl : litLeaf t = true) (v : HVal) (st : St)
+    (hwf : wfStore st = true) (hps : properStore st = true) (hv : inB st.cells.length v = true) (hpv : Proper v)
+    (k : Nat) (o : Obj) (hden : denote st.cells k v = some o) (n : Nat) (hn : k + dW w + 1 ≤ n) :
+    (run w hc n (.st t) v st).1.isSome = (convStructure w hc.cfg t o).isSome := by
+  have h := C11_refines_pure_structure w hc hovr hw t hl v st hwf hps hv hpv k o hden n hn
+  cases hr : (run w hc n (.st t) v st).1 with
+  | none => rw [h.2 hr]; rfl
+  | some r => obtain ⟨y, hy, _⟩ := h.1 r hr; rw [hy]; rfl
+
+/-- **Fuel eliminated**: two runs with sufficient fuel agree on ok/err and their results read as the same object. -/
+theorem C11_structure_fuel_independent (w : World) (hc : HCfg) (hovr : hc.ovr = []) (hw : WLit w)
+    (t : Ty) (hl : litLeaf t = true) (v : HVal) (st : St)
+    (hwf : wfStore st = true) (hps : properStore st = true) (hv : inB st.cells.length v = true) (hpv : Proper v)
+    (k : Nat) (o : Obj) (hden : denote st.cells k v = some o) (n n' : Nat) (hn : k + dW w + 1 ≤ n) (hn' : k + dW w + 1 ≤ n') :
+    (run w hc n (.st t) v st).1.isSome = (run w hc n' (.st t) v st).1.isSome ∧
+    ∀ r r', (run w hc n (.st t) v st).1 = some r → (run w hc n' (.st t) v st).1 = some r' →
+      ∃ y, denote (run w hc n (.st t) v st).2.cells (k + dW w) r = some y ∧
+           denote (run w hc n' (.st t) v st).2.cells (k + dW w) r' = some y := by
+  refine ⟨by rw [C11_refines_pure_structure_okerr w hc hovr hw t hl v st hwf hps hv hpv k o hden n hn,
+    C11_refines_pure_structure_okerr w hc hovr hw t hl v st hwf hps hv hpv k o hden n' hn'], fun r r' hr hr' => ?_⟩
+  obtain ⟨y, hy, hd1⟩ := (C11_refines_pure_structure w hc hovr hw t hl v st hwf hps hv hpv k o hden n hn).1 r hr
+  obtain ⟨y', hy', hd2⟩ := (C11_refines_pure_structure w hc hovr hw t hl v st hwf hps hv hpv k o hden n' hn').1 r' hr'
+  rw [hy] at hy'; cases hy'
+  exact ⟨y, hd1, hd2⟩
+
+/-- non-vacuity: `structure(['1'], list[int])` on the store `0 ↦ ['1']` -/
+example : WLit c11_w0 ∧ litLeaf (.coll .list .int) = true ∧
+    wfStore { cells := [.coll .list [.leaf (.str "1")]] } = true ∧
+    properStore { cells := [.coll .list [.leaf (.str "1")]] } = true ∧ Proper (.ref 0) ∧
+    denote [Cell.coll .list [.leaf (.str "1")]] 1 (.ref 0) = some (.coll .list [.str "1"]) := by
+  refine ⟨fun c f hf => ?_, rfl, by decide, by decide, Proper.ref 0, ?_⟩
+  · simp [World.fields, c11_w0] at hf
+  · simp [denote, denoteL]
+
+/-- **The heap program of `unstructure` computes what the pure model computes** (partial, see below): for an
+argument that reads as a value `o` of the type (`conf`), whose instances conform to their classes at every depth,
+whose dicts have pairwise non-`==` keys and which holds no NamedTuple instance (`OKU`), in a class table with
+distinct field names (`WorldOK`), with any fuel `n ≥ k + 1`: a returned value reads, in the final store and within
+the same `k` hops, as `convUnstructure w hc.cfg t o` (= `un`).  Every type and configuration: collections, mappings,
+heterogeneous tuples, classes (dict / tuple strategy, `init=False` fields), `Any` / unions / `Optional` / wrappers by
+run-time class, enums, the TypedDict hooks (BaseConverter mapping path, identity short-cut — `isIdUn` is sound —,
+copy-then-patch hook = `unTD`).
+
+Full statement (NOT proved): the same without `!w.isNT c` in `OKU` and with "the call returns".  Missing:
+(i) NamedTuple pass-through returns the instance itself where the pure model returns the plain tuple of its items
+— equal only up to "a NamedTuple instance is that tuple" (an erasure on both sides is needed; measured: all
+`agree = 0` cases with outcome ok are of this kind); (ii) the pure `un` is total while the hook can raise
+`TypeError: unhashable` when an unstructured set member / dict key is unhashable (recorded finding F10; measured: all
+`agree = 0` cases with outcome err), so no statement is made when the call raises. -/
+theorem C11_refines_pure_unstructure_partial (w : World) (hc : HCfg) (hovr : hc.ovr = []) (hw : WorldOK w)
+    (t : Ty) (v : HVal) (st : St)
+    (hwf : wfStore st = true) (hps : properStore st = true) (hv : inB st.cells.length v = true) (hpv : Proper v)
+    (k : Nat) (o : Obj) (hden : denote st.cells k v = some o) (hconf : conf w t o = true) (hoku : OKU w o = true)
+    (n : Nat) (hn : k + 1 ≤ n) :
+    ∀ r, (run w hc n (.un t) v st).1 = some r →
+      denote (run w hc n (.un t) v st).2.cells k r = some (convUnstructure w hc.cfg t o) := by
+  obtain ⟨K, rfl⟩ : ∃ K, n = K + 1 := ⟨n - 1, by omega⟩
+  intro r hr
+  obtain ⟨y, hy, hd⟩ := (run_ref_un w hc hovr hw st.cells.length K (.un t) v st k o (Good.of_wf hwf hps) (inB_argOld hv)
+    hpv hden (by omega) ⟨hconf, hoku⟩).1 r hr
+  simp only [callPure, Option.some.injEq] at hy
+  subst hy
+  exact hd
+
+/-- **`C11_refines_pure`**: both directions together (partial because of the unstructure half). -/
+theorem C11_refines_pure (w : World) (hc : HCfg) (hovr : hc.ovr = []) (hw : WLit w) (hwo : WorldOK w)
+    (t : Ty) (hl : litLeaf t = true) (v : HVal) (st : St)
+    (hwf : wfStore st = true) (hps : properStore st = true) (hv : inB st.cells.length v = true) (hpv : Proper v)
+    (k : Nat) (o : Obj) (hden : denote st.cells k v = some o) (n : Nat) (hn : k + dW w + 1 ≤ n) :
+    ((∀ r, (run w hc n (.st t) v st).1 = some r →
+        ∃ y, convStructure w hc.cfg t o = some y ∧ denote (run w hc n (.st t) v st).2.cells (k + dW w) r = some y) ∧
+      ((run w hc n (.st t) v st).1 = none → convStructure w hc.cfg t o = none)) ∧
+    (conf w t o = true → OKU w o = true → ∀ r, (run w hc n (.un t) v st).1 = some r →
+      denote (run w hc n (.un t) v st).2.cells k r = some (convUnstructure w hc.cfg t o)) :=
+  ⟨C11_refines_pure_structure w hc hovr hw t hl v st hwf hps hv hpv k o hden n hn,
+   fun hconf hoku => C11_refines_pure_unstructure_partial w hc hovr hwo t v st hwf hps hv hpv k o hden hconf hoku n
+     (by omega)⟩
+
+/-! ## Full freshness on the F34-free region; where `ident` can occur -/
+
+/-- **`ident` occurs exactly at the documented positions** (syntactic, about `plan`; both directions): when
+structuring — untyped attributes and `Any` (under `Optional` / wrappers); when unstructuring — immutable leaves,
+instances of unknown classes, types whose hook is the identity (leaf types, BaseConverter heterogeneous tuples /
+NewType / Annotated, the identity-TypedDict short-cut, the NamedTuple pass-through), and a value that does not have
+the run-time shape of the declared type (`DocUn.mismatch`: only the frame property is claimed there). -/
+theorem C11_ident_only_at_documented_positions (w : World) (hc : HCfg) (n : Nat) (call : Call) (v : HVal)
+    (view : Option Cell) (obj : Option Obj) (v' : HVal) (h : plan w hc n call v view obj = .ident v') :
+    v' = v ∧ DocPos w hc n call v view :=
+  ident_only_at_documented_positions w hc n call v view obj v' h
+
+theorem C11_documented_positions_plan_ident (w : World) (hc : HCfg) (n : Nat) (call : Call) (v : HVal)
+    (view : Option Cell) (obj : Option Obj) (h : DocPos w hc n call v view) :
+    plan w hc n call v view obj = .ident v :=
+  documented_positions_plan_ident w hc n call v view obj h
+
+/-- **Full freshness** on the F34-free region (`f34free`: at every TypedDict position the run meets, evaluated in the
+caller's store, every entry of the payload / instance dict is assigned by a patch — declared keys only, none omitted):
+every caller location reachable from the result is reachable from a location logged by `Prog.ident` (the ghost `ilog`
+is written by `ident` only), and that location was logged at a documented position. -/
+theorem C11_fresh_full (w : World) (hc : HCfg) (n : Nat) (call : Call) (v : HVal) (st : St)
+    (hwf : wfStore st = true) (hv : inB st.cells.length v = true)
+    (hlog : st.log = []) (hilog : st.ilog = [])
+    (hreg : f34free w hc (fun _ => False) st.cells n call v)
+    (r : HVal) (hr : (run w hc n call v st).1 = some r) (l : Loc)
+    (hreach : Reach (run w hc n call v st).2.cells r l) (hl : l < st.cells.length) :
+    ∃ p, p < st.cells.length ∧ Reach st.cells (.ref p) l ∧ p ∈ (run w hc n call v st).2.ilog ∧
+      ∃ n' call', DocPos w hc n' call' (.ref p) (viewOf st (.ref p)) :=
+  fresh_full_documented w hc n call v st hwf hv hlog hilog hreg r hr l hreach hl
+
+/-- the region contains every TypedDict structure call under `forbid_extra_keys`' own test (declared keys only) -/
+theorem C11_f34free_of_declared_keys (D : Nat → Prop) (hc : HCfg) (c : Nat) (kvs : List (HVal × HVal)) (fds : List Field)
+    (hd : KeysDistinct kvs) (hdecl : keyStrs kvs (tdStPatches hc c kvs fds).2.2 = true) :
+    NoExtras D kvs (tdStPatches hc c kvs fds).1 :=
+  tdSt_noExtras D hc c kvs fds hd hdecl
+
+/-! ## Tagged unions: the concrete composition (closure of `configure_tagged_union` ∘ the converter's member hook) -/
+
+theorem C11_taggedC_frame (w : World) (hc : HCfg) (n : Nat) (tg : Tagged) (isSt : Bool) (v : HVal) (st : St)
+    (hwf : wfStore st = true) (hv : inB st.cells.length v = true) :
+    ∀ l : Nat, l < st.cells.length → (runTaggedC w hc n tg isSt v st).2.cells[l]? = st.cells[l]? :=
+  taggedC_frame w hc n tg isSt v st hwf hv
+
+theorem C11_taggedC_fresh (w : World) (hc : HCfg) (n : Nat) (tg : Tagged) (isSt : Bool) (v : HVal) (st : St)
+    (hwf : wfStore st = true) (hv : inB st.cells.length v = true)
+    (r : HVal) (hr : (runTaggedC w hc n tg isSt v st).1 = some r) (l : Loc)
+    (hreach : Reach (runTaggedC w hc n tg isSt v st).2.cells r l) (hl : l < st.cells.length) :
+    ∃ p, p ∈ (runTaggedC w hc n tg isSt v st).2.log ∧ p < st.cells.length ∧ Reach st.cells (.ref p) l :=
+  taggedC_fresh w hc n tg isSt v st hwf hv r hr l hreach hl
+
+/-- on mapping payloads / instances the abstract model of `Tagged.lean` and the concrete composition coincide
+(result and whole final store) -/
+theorem C11_taggedC_eq_abstract (w : World) (hc : HCfg) (n : Nat) (tg : Tagged) (v : HVal) (st : St) :
+    (∀ c fs, viewOf st v = some (.inst c fs) → runTaggedC w hc (n + 1) tg false v st = runTagged w hc n tg false v st) ∧
+    (∀ kvs obj, viewOf st v = some (.dict kvs) → denote st.cells n v = some obj →
+      runTaggedC w hc (n + 1) tg true v st = runTagged w hc n tg true v st) :=
+  ⟨fun c fs h => runTaggedC_eq_un w hc n tg v st c fs h, fun kvs obj h h' => runTaggedC_eq_st w hc n tg v st kvs obj h h'⟩
 
 end CattrsModel
